@@ -97,8 +97,14 @@ Inductive eqn :=
 | ELeafTag (v : vexp)
 | EPush (ns : nat)
 | EPop
-| EScan (len : nat) (body : list eqn)
+| EScan (len : nat) (rv : bool) (body : list eqn)
 | EDet.
+
+(** lax.scan(..., reverse=rv): the dynamic instance [k] is the execution step (what a carried
+    quantity sees); a forward scan puts step k at stack position k, a reverse scan runs from the
+    last position down, so that position i holds step len-1-i. *)
+Definition scan_order (len : nat) (rv : bool) : list nat :=
+  if rv then rev (seq 0 len) else seq 0 len.
 
 Record ist := { coll : tree; nstack : list nat }.
 
@@ -109,12 +115,12 @@ Fixpoint interp1 (e : eqn) (idx : list nat) (st : ist) {struct e} : ist :=
   | EPush ns => {| coll := coll st; nstack := nstack st ++ [ns] |}
   | EPop => {| coll := coll st; nstack := removelast (nstack st) |}
   | EDet => st
-  | EScan len body =>
+  | EScan len rv body =>
       let run := fun i =>
         coll ((fix go (es : list eqn) (st : ist) : ist :=
                  match es with [] => st | e' :: es' => go es' (interp1 e' (idx ++ [i]) st) end)
                 body {| coll := TNode []; nstack := [] |}) in
-      let states := map run (seq 0 len) in
+      let states := map run (scan_order len rv) in
       {| coll := tmerge_at (nstack st) (tstack (run 0) states) (coll st); nstack := nstack st |}
   end.
 
@@ -127,7 +133,7 @@ Inductive sprog :=
 | PSaveLeaf (site : nat)
 | PDet
 | PNs (ns : nat) (body : list sprog)
-| PScan (len : nat) (body : list sprog)
+| PScan (len : nat) (rv : bool) (body : list sprog)
 | PVmap (n : nat) (body : list sprog).
 
 Fixpoint wrap (bs : list nat) (v : vexp) : vexp :=
@@ -141,8 +147,8 @@ Fixpoint flatten1 (p : sprog) (bs : list nat) {struct p} : list eqn :=
   | PDet => [EDet]
   | PNs ns body =>
       EPush ns :: (fix go (l : list sprog) := match l with [] => [] | q :: l' => flatten1 q bs ++ go l' end) body ++ [EPop]
-  | PScan len body =>
-      [EScan len ((fix go (l : list sprog) := match l with [] => [] | q :: l' => flatten1 q bs ++ go l' end) body)]
+  | PScan len rv body =>
+      [EScan len rv ((fix go (l : list sprog) := match l with [] => [] | q :: l' => flatten1 q bs ++ go l' end) body)]
   | PVmap n body =>
       (fix go (l : list sprog) := match l with [] => [] | q :: l' => flatten1 q (bs ++ [n]) ++ go l' end) body
   end.
@@ -158,11 +164,11 @@ Fixpoint spec1 (p : sprog) (idx path bs : list nat) (acc : tree) {struct p} : tr
   | PNs ns body =>
       (fix go (l : list sprog) (acc : tree) : tree :=
          match l with [] => acc | q :: l' => go l' (spec1 q idx (path ++ [ns]) bs acc) end) body acc
-  | PScan len body =>
+  | PScan len rv body =>
       let per := fun i =>
         (fix go (l : list sprog) (acc : tree) : tree :=
            match l with [] => acc | q :: l' => go l' (spec1 q (idx ++ [i]) [] bs acc) end) body (TNode []) in
-      tmerge_at path (tstack (per 0) (map per (seq 0 len))) acc
+      tmerge_at path (tstack (per 0) (map per (scan_order len rv))) acc
   | PVmap n body =>
       (fix go (l : list sprog) (acc : tree) : tree :=
          match l with [] => acc | q :: l' => go l' (spec1 q idx path (bs ++ [n]) acc) end) body acc
